@@ -1,8 +1,11 @@
 use std::{marker::PhantomData, mem::MaybeUninit};
 
 /// Internal data holder, heavily unsage, do not use it directly.
+#[cfg_attr(truc_verif_hooks, repr(C))]
 pub struct RecordMaybeUninit<const CAP: usize> {
     data: [MaybeUninit<u8>; CAP],
+    #[cfg(truc_verif_hooks)]
+    shadow: std::cell::UnsafeCell<crate::verif::Shadow<CAP>>,
     // The bytes hold values of types unknown here: whether they can cross threads is decided by
     // the generated code which knows those types (see [`RecordDataTypes`]).
     _not_send_sync: PhantomData<*mut u8>,
@@ -19,6 +22,8 @@ impl<const CAP: usize> RecordMaybeUninit<CAP> {
     pub fn new() -> Self {
         Self {
             data: unsafe { std::mem::MaybeUninit::uninit().assume_init() },
+            #[cfg(truc_verif_hooks)]
+            shadow: std::cell::UnsafeCell::new(crate::verif::Shadow::new()),
             _not_send_sync: PhantomData,
         }
     }
@@ -30,6 +35,8 @@ impl<const CAP: usize> RecordMaybeUninit<CAP> {
     /// This function should not be called by anything but truc-generated code. It is used to put
     /// data written by [`Self::write`] back in a droppable state.
     pub unsafe fn read<T>(&self, offset: usize) -> T {
+        #[cfg(truc_verif_hooks)]
+        (*self.shadow.get()).on_read::<T>(offset, self.data.as_ptr() as usize + offset);
         std::ptr::read((self.data.as_ptr().add(offset) as *const u8).cast())
     }
 
@@ -40,6 +47,10 @@ impl<const CAP: usize> RecordMaybeUninit<CAP> {
     /// This function should not be called by anything but truc-generated code which is also
     /// responsible for dropping the data by reading the object (see [`Self::read`]).
     pub unsafe fn write<T>(&mut self, offset: usize, t: T) {
+        #[cfg(truc_verif_hooks)]
+        self.shadow
+            .get_mut()
+            .on_write::<T>(offset, self.data.as_ptr() as usize + offset);
         // The buffer itself is only byte aligned (constructors and conversions fill a local buffer
         // before it is moved into the aligned record).
         std::ptr::write_unaligned((self.data.as_mut_ptr().add(offset) as *mut u8).cast(), t);
@@ -51,6 +62,8 @@ impl<const CAP: usize> RecordMaybeUninit<CAP> {
     ///
     /// This function should not be called by anything but truc-generated code.
     pub unsafe fn get<T>(&self, offset: usize) -> &T {
+        #[cfg(truc_verif_hooks)]
+        (*self.shadow.get()).on_ref::<T>(offset, self.data.as_ptr() as usize + offset, false);
         &*(self.data.as_ptr().add(offset) as *mut u8).cast()
     }
 
@@ -60,7 +73,18 @@ impl<const CAP: usize> RecordMaybeUninit<CAP> {
     ///
     /// This function should not be called by anything but truc-generated code.
     pub unsafe fn get_mut<T>(&mut self, offset: usize) -> &mut T {
+        #[cfg(truc_verif_hooks)]
+        self.shadow
+            .get_mut()
+            .on_ref::<T>(offset, self.data.as_ptr() as usize + offset, true);
         &mut *(self.data.as_mut_ptr().add(offset) as *mut u8).cast()
+    }
+}
+
+#[cfg(truc_verif_hooks)]
+impl<const CAP: usize> Drop for RecordMaybeUninit<CAP> {
+    fn drop(&mut self) {
+        self.shadow.get_mut().on_buffer_drop();
     }
 }
 
